@@ -138,7 +138,7 @@ PROPS = {
         models=[dict(module="Rng", about="toy sampler machine: all candidate sequences <= 3 per operation: used scalars are in range, accepted during the operation, one per operation"),
                 dict(module="Rng", cfg="Rng_neg", expect="violation", about="negative: a sampler accepting candidates up to CMax-1 (like c < p-1) must be refuted")],
         stages=[dict(suite="rng", nda="validate", trace="TraceRng", workers=1,
-                     required_classes={"both": ["rng.op/sm2.sign", "rng.op/sm2.keygen", "rng.op/sm2.encrypt", "rng.op/sm2.kx1", "rng.op/sm2.kx2", "rng.op/sm2.sign.injected", "rng.op/sm9.sign", "rng.op/sm9.encrypt", "rng.op/sm9.keygen-sign", "rng.op/sm9.kx1a", "rng.op/sm9.kx1b", "rng.op/sm9.sign.injected", "rng.op/sm9.encrypt.retry", "rng.summary/summary"]})],
+                     required_classes={"both": ["rng.op/sm2.sign", "rng.op/sm2.keygen", "rng.op/sm2.encrypt", "rng.op/sm2.kx1", "rng.op/sm2.kx2", "rng.op/sm2.sign.injected", "rng.op/sm9.sign", "rng.op/sm9.encrypt", "rng.op/sm9.keygen-sign", "rng.op/sm9.keygen-sign2", "rng.op/sm9.keygen-enc", "rng.op/sm9.keygen-enc2", "rng.op/sm9.kx1a", "rng.op/sm9.kx1b", "rng.op/sm9.sign.injected", "rng.op/sm9.encrypt.retry", "rng.summary/summary"]})],
         assumptions=["bit-unbiasedness is a counting test (8 sigma per bit position); OS seeding is observed only through non-repetition across two processes",
                      "the RNG hook reports every candidate at the point where 32 generator bytes become a candidate"],
     ),
@@ -172,7 +172,7 @@ PROPS = {
                 dict(module="MC_JacobianImpl", cfg="MC_JacobianImpl_mulneg", expect="violation", about="negative: window multiplication over the unfixed addition must be refuted"),
                 dict(module="MC_Mont", about="register-level Montgomery mul / add / sub with R = 2^7: every prime in (64,128) x every operand pair")],
         stages=[dict(suite="sm2ec", nda="compare", trace="TraceSM2", plan=dict(module="PlanField", cfg_quick="PlanField", cfg_thorough="PlanField_t"),
-                     required_classes={"both": ["fp.op/fp.mul.planned-window", "fn.op/fn.mul.planned-window", "ec.add/add.P=Q", "ec.add/add.P=Q.diffZ", "ec.add/add.P=-Q", "ec.add/add.O+Q", "ec.add/add.generic", "ec.smul/smul.k=n", "ec.smul/smul.k>n",
+                     required_classes={"both": ["fp.op/fp.mul.planned-window", "fn.op/fn.mul.planned-window", "ec.add/add.P=Q", "ec.add/add.P=Q.diffZ", "ec.add/add.P=-Q", "ec.add/add.O+Q", "ec.add/add.generic", "ec.add/add.same-y", "ec.smul/smul.k=n", "ec.smul/smul.k>n",
                                                 "ec.smul/smul.k=0", "ec.gmul/gmul.k<n", "ec.valid/valid.off", "ec.table/table.entry", "ec.table/table.row-base",
                                                 "fp.op/fp.mul.near-modulus", "fp.op/fp.add.near-2^256-m", "fn.op/fn.add.near-modulus"]})],
         assumptions=["Weierstrass.tla is the affine group law; verdicts are on denotations (X/Z^2, Y/Z^3 of the Montgomery-decoded coordinates)", "BigNat Java override (cross-checked by MC_BigNat)"],
@@ -234,7 +234,7 @@ PROPS = {
         rule="events = pairings evaluated by the library: exact 384-byte comparison with the textbook pairing, bilinearity identities judged against G0^(ab), GT powers; distinct = distinct inputs; non-trivial = all",
         models=[dict(module="AnchorSM9q", anchor=True, workers=1, tier="quick", about="SM9.tla reproduces the GM/T 0044.5 Annex extraction / signature / ciphertext values via the derived evaluator; G0 has order N"), dict(module="AnchorSM9", anchor=True, workers=1, tier="thorough", timeout=900, about="all GM/T 0044.5 Annex values incl. the definitional pairings, decryption and key exchange; G0Const = Pairing(P1,P2)")],
         stages=[dict(suite="sm9pair", nda="compare", trace="TraceSM9", timeout=3400,
-                     required_classes={"both": ["sm9.pairing/pairing.exact.generators", "sm9.pairing/pairing.exact.near-order", "sm9.pairing/pairing.exact.random", "sm9.pairing/pairing.exact.annex-g", "sm9.pairing/pairing.exact.identity-g1", "sm9.pairing/pairing.exact.identity-g2",
+                     required_classes={"both": ["sm9.pairing/pairing.exact.generators", "sm9.pairing/pairing.exact.near-order", "sm9.pairing/pairing.exact.random", "sm9.pairing/pairing.exact.annex-g", "sm9.pairing/pairing.exact.identity-g1", "sm9.pairing/pairing.exact.identity-g2", "sm9.pair_ident/pairing.bilinear.q.z=-1", "sm9.pair_ident/pairing.bilinear.q.z=u", "sm9.pair_ident/pairing.bilinear.p.z=-1", "sm9.pair_ident/pairing.bilinear.p.stored-1",
                                                 "sm9.pair_ident/pairing.bilinear.random", "sm9.pair_ident/pairing.bilinear.near-order", "gt.pow/gt.pow.e=N-2", "gt.pow/gt.pow.sparse"]})],
         assumptions=["BN.tla: textbook R-ate pairing over Fp[w]/(w^12+2), final exponent by definition; anchored by the Annex value of e(P1, Ppub-s) through the signature example"],
     ),
@@ -263,7 +263,7 @@ PROPS = {
         models=[dict(module="MC_SignLive", about="toy group: signing terminates (liveness under a fair source) for every key in [1, n-2] and every digest; signatures in range"),
                 dict(module="MC_SignLive", cfg="MC_SignLive_neg", expect="violation", about="negative: a constructor admitting d = n-1 must yield the non-terminating lasso")],
         stages=[dict(suite="api", nda="validate", trace="TraceApi",
-                     required_classes={"both": ["sm2.verify/sm2.verify.content.len0", "sm2.decrypt.uncomp/sm2.decrypt.uncomp.content.len<98", "sm4.new/sm4.new.content.len<16", "sm4.cbc_dec/sm4.cbc_dec.content.len0",
+                     required_classes={"both": ["sm9.hash2/sm9.hash2.long.len>=98", "sm9.sign_msg/sm9.sign_msg.ladder.len>=98", "sm9.verify_msg/sm9.verify_msg.ladder.len>=98", "sm2.sign_msg/sm2.sign_msg.ladder.len>=98", "sm2.verify/sm2.verify.content.len0", "sm2.decrypt.uncomp/sm2.decrypt.uncomp.content.len<98", "sm4.new/sm4.new.content.len<16", "sm4.cbc_dec/sm4.cbc_dec.content.len0",
                                                 "sm9.decrypt/sm9.decrypt.content.len<98", "sm9.from_hash/sm9.from_hash.content.len<40", "sm9.from_hash/sm9.from_hash.content.len<98", "sm2.pkcs8_der/sm2.pkcs8_der.corrupted.len>=98", "sm2.decrypt_asn1/sm2.decrypt_asn1.der-shape.len<98", "sm2.decrypt_asn1/sm2.decrypt_asn1.corrupted.len>=98",
                                                 "sm2.sign_with_key/sm2.sign_with_key.d=n-1.len<33", "sm9.verify/sm9.verify.arbitrary.len<33"]})],
         assumptions=["Api.tla: total outcome function; length rules of the standards"],
